@@ -294,6 +294,104 @@ theorem registry_roundtrip (d : List HM) (s t : String) (m : HM) (p : V3) (r : Q
     simp only [HM.transform]
     rw [this]
 
+/-! ## a modified registry answers from its current contents
+
+`reg[key] = m` (`dictSet`), `del reg[key]` (`dictErase` / `dictDel`); `copy.deepcopy(reg)` is the same
+list.  Whatever was registered or asked before, the answer after a modification is the one the
+rule gives for the contents at the time of the query. -/
+
+theorem lookup_cons_some {a : HM} {ds : List HM} {k : String × String} {r : HM} (h : lookup ds k = some r) :
+    lookup (a :: ds) k = some r := by
+  rw [lookup, h]
+
+theorem lookup_cons_none {a : HM} {ds : List HM} {k : String × String} (h : lookup ds k = none) :
+    lookup (a :: ds) k = if a.key = k then some a else none := by
+  rw [lookup, h]
+
+/-- after `reg[m.key] = m` the key `m.key` holds `m`; every other key holds what it held -/
+theorem lookup_set (d : List HM) (m : HM) (k : String × String) :
+    lookup (dictSet d m) k = if m.key = k then some m else lookup d k := by
+  induction d with
+  | nil => simp [dictSet, lookup]
+  | cons a ds ih =>
+    simp only [dictSet, List.cons_append] at ih ⊢
+    by_cases h : m.key = k
+    · rw [if_pos h] at ih ⊢
+      exact lookup_cons_some ih
+    · rw [if_neg h] at ih ⊢
+      cases hl : lookup ds k with
+      | some r => rw [hl] at ih; rw [lookup_cons_some ih, lookup_cons_some hl]
+      | none => rw [hl] at ih; rw [lookup_cons_none ih, lookup_cons_none hl]
+
+/-- after `del reg[k']` the key `k'` is not registered; every other key holds what it held -/
+theorem lookup_erase (d : List HM) (k k' : String × String) :
+    lookup (dictErase d k') k = if k = k' then none else lookup d k := by
+  induction d with
+  | nil => simp [dictErase, lookup]
+  | cons a ds ih =>
+    simp only [dictErase] at ih ⊢
+    by_cases ha : a.key = k'
+    · rw [List.filter_cons_of_neg (by simp [ha]), ih]
+      by_cases hk : k = k'
+      · simp [hk]
+      · have hak : a.key ≠ k := by rw [ha]; exact fun e => hk e.symm
+        simp only [if_neg hk]
+        cases hl : lookup ds k with
+        | some r => rw [lookup_cons_some hl]
+        | none => rw [lookup_cons_none hl, if_neg hak]
+    · rw [List.filter_cons_of_pos (by simp [ha])]
+      by_cases hk : k = k'
+      · rw [if_pos hk] at ih ⊢
+        rw [lookup_cons_none ih, if_neg (by rw [hk]; exact ha)]
+      · rw [if_neg hk] at ih ⊢
+        cases hl : lookup ds k with
+        | some r => rw [hl] at ih; rw [lookup_cons_some ih, lookup_cons_some hl]
+        | none => rw [hl] at ih; rw [lookup_cons_none ih, lookup_cons_none hl]
+
+/-- `del reg[k]` raises `KeyError` exactly when `k` is not registered, and otherwise leaves `dictErase` -/
+theorem dictDel_spec (d : List HM) (k : String × String) :
+    dictDel d k = if lookup d k = none then .error "KeyError" else .ok (dictErase d k) := by
+  unfold dictDel
+  cases lookup d k <;> simp
+
+/-- X-to-Y (re-)registered: answered with the NEW matrix -/
+theorem query_after_set_direct (d : List HM) (m : HM) (ks kd : Arg) (s t : String) (x : TArg)
+    (hk : transformKey ks kd = .ok (s, t)) (hne : s ≠ t) (hm : m.key = (s, t)) :
+    dictTransform (dictSet d m) ks kd x = m.transform x :=
+  lookup_direct _ ks kd s t m x hk hne (by rw [lookup_set, if_pos hm])
+
+/-- Y-to-X (re-)registered while X-to-Y is not: X-to-Y is answered with the inverse of the NEW
+matrix (not with the inverse of an earlier Y-to-X) -/
+theorem query_after_set_reverse (d : List HM) (m : HM) (ks kd : Arg) (s t : String) (x : TArg)
+    (hk : transformKey ks kd = .ok (s, t)) (hne : s ≠ t) (hm : m.key = (t, s))
+    (hnone : lookup d (s, t) = none) :
+    dictTransform (dictSet d m) ks kd x = (inv m).transform x := by
+  have hst : m.key ≠ (s, t) := by
+    rw [hm]; intro e; exact hne (congrArg Prod.snd e)
+  exact lookup_inverse _ ks kd s t m x hk hne (by rw [lookup_set, if_neg hst]; exact hnone)
+    (by rw [lookup_set, if_pos hm])
+
+/-- a registration under another pair of frames does not change the answer -/
+theorem query_after_set_other (d : List HM) (m : HM) (ks kd : Arg) (s t : String) (x : TArg)
+    (hk : transformKey ks kd = .ok (s, t)) (h1 : m.key ≠ (s, t)) (h2 : m.key ≠ (t, s)) :
+    dictTransform (dictSet d m) ks kd x = dictTransform d ks kd x := by
+  simp only [dictTransform, hk, bind, Except.bind, lookup_set, if_neg h1, if_neg h2]
+
+/-- Y-to-X deleted while X-to-Y is not registered: X-to-Y raises `KeyError` (and so does Y-to-X) -/
+theorem query_after_del (d : List HM) (ks kd : Arg) (s t : String) (x : TArg)
+    (hk : transformKey ks kd = .ok (s, t)) (hne : s ≠ t) (hnone : lookup d (s, t) = none) :
+    dictTransform (dictErase d (t, s)) ks kd x = .error "KeyError" := by
+  have hts : (s, t) ≠ (t, s) := fun e => hne (congrArg Prod.fst e)
+  simp only [dictTransform, hk, bind, Except.bind, hne, if_false, lookup_erase, if_neg hts, hnone, if_true]
+
+/-- deleting Y-to-X while X-to-Y is registered leaves Y-to-X answered with the inverse of X-to-Y -/
+theorem query_after_del_falls_back (d : List HM) (m : HM) (ks kd : Arg) (s t : String) (x : TArg)
+    (hk : transformKey ks kd = .ok (t, s)) (hne : s ≠ t) (hm : lookup d (s, t) = some m) :
+    dictTransform (dictErase d (t, s)) ks kd x = (inv m).transform x := by
+  have hts : (s, t) ≠ (t, s) := fun e => hne (congrArg Prod.fst e)
+  exact lookup_inverse _ ks kd t s m x hk (Ne.symm hne) (by rw [lookup_erase, if_pos rfl])
+    (by rw [lookup_erase, if_neg hts]; exact hm)
+
 /-! ## non-vacuity: concrete rigid motions, chains and registries -/
 
 /-- rotation by the unit quaternion (1, 2, 2, 4)/5 with a translation, base_link → map -/
@@ -316,6 +414,17 @@ example : dictTransform [exA, exB] (.str "map") (.str "BASE_LINK") (.pos ⟨1, 0
     = (inv exA).transform (.pos ⟨1, 0, 0⟩) := by decide +kernel
 example : dictTransform [exA, exB] (.str "map") (.member "CAM_FRONT") (.pos ⟨1, 0, 0⟩) = .error "KeyError" := by
   decide +kernel
+/-- a second base_link → map (the ego pose of the next frame) -/
+def exA' : HM := ⟨⟨5, 3, 1⟩, ⟨0, 3/5, 4/5, 0⟩, "BASE_LINK", "MAP"⟩
+example : exA'.key = ("BASE_LINK", "MAP") ∧ exA' ≠ exA := by decide +kernel
+example : lookup [exA] ("MAP", "BASE_LINK") = none := by decide +kernel
+example : dictTransform (dictSet [exA] exA') (.str "map") (.str "base_link") (.pos ⟨1, 0, 0⟩)
+    = (inv exA').transform (.pos ⟨1, 0, 0⟩) := by decide +kernel
+example : (inv exA').transform (.pos ⟨1, 0, 0⟩) ≠ (inv exA).transform (.pos ⟨1, 0, 0⟩) := by decide +kernel
+example : dictDel [exA, exB] ("BASE_LINK", "MAP") = .ok [exB] := by decide +kernel
+example : dictDel [exB] ("BASE_LINK", "MAP") = .error "KeyError" := by decide +kernel
+example : dictTransform (dictErase [exA, exB] ("BASE_LINK", "MAP")) (.str "map") (.str "base_link") (.pos ⟨1, 0, 0⟩)
+    = .error "KeyError" := by decide +kernel
 example : (TArg.pos ⟨1, 0, 0⟩).malformed = none := rfl
 example : ("bogus" : String).toLower ∉ values Gen.frameID := by decide +kernel
 
